@@ -766,6 +766,22 @@ def tree_group_family(seed, n, maxlen=4, budget=6000, kinds=("alt", "adj", "acmd
     return out
 
 
+def acmd_with_alt_family(seed, n, maxlen=4, budget=6000):
+    """mutually exclusive flags next to an adjacent subcommand with a required argument: an item of the losing branch
+    typed inside the command's block, help after it"""
+    rnd = random.Random(seed)
+    out = []
+    for i in range(n):
+        g = altf("g0", ["opt", "one", "many"][i % 3], branch(rf("b0", "one", "--release")), branch(rf("b1", "one", "--dev")))
+        c = adjf("c0", ["many", "opt", "one"][(i // 3) % 3], cmdhead("h0", "build"), ar("j", "one", "int", "--jobs"), sw("q", "-q"))
+        d = mkdef(f"acalt{seed}_{i}", level([g, c], NOTAIL), maxlen=maxlen, extras=("help",), spells=("sep",), words=("1", "build"))
+        galpha_trim(d, budget)
+        d["alpha"]["words"] = list(dict.fromkeys(d["alpha"]["words"] + ["build"]))
+        d["alpha"]["extras"] = ["help"]
+        out.append(d)
+    return out
+
+
 def acmd_alt_family(seed, n, maxlen=4, budget=6000):
     """a repeated choice between adjacent subcommands (`construct!([build, test, clean]).many()`), some of which take
     no items of their own: one value per command typed, in command-line order"""
